@@ -128,6 +128,19 @@ func ChainLoops(pkg *packages.Package, fd *ast.FuncDecl) []ChainLoop {
 						offObj, offName = o, o.Name()
 					}
 				}
+			case *ast.BinaryExpr:
+				// the "previous end" idiom: `end != prevEnd` decides whether a member is empty
+				if x.Op == token.NEQ || x.Op == token.EQL {
+					if usesObj(x.X, elemObj) {
+						if o := outerInt(x.Y); o != nil && offObj == nil {
+							offObj, offName = o, o.Name()
+						}
+					} else if usesObj(x.Y, elemObj) {
+						if o := outerInt(x.X); o != nil && offObj == nil {
+							offObj, offName = o, o.Name()
+						}
+					}
+				}
 			}
 			return true
 		})
